@@ -161,7 +161,8 @@ try {
     Item premade_sig;
     Item privkey;
     secp256k1_keypair keypair;
-    bech32_hrp = ca.m.count('p') ? ca.m['p'] : DEFAULT_ADDR_PREFIX;
+    // bech32 addresses are lower case (bech32::Encode insists on a lower-case prefix)
+    bech32_hrp = ca.m.count('p') ? ToLower(ca.m['p']) : DEFAULT_ADDR_PREFIX;
 
     bool have_txs = false;
     if (ca.m.count('x') + ca.m.count('i') == 1) abort("provide either both --txin and --tx, or neither");
